@@ -54,6 +54,8 @@ def run(rep, idx, tier):
     glue.align_up(rep, idx, "C02.9")
     # ---- C02.10 queries report the current contents: pure, or their memo is reset by every mutator ---------------
     query_coherence(rep, idx)
+    from .c19 import shared_state
+    shared_state(rep, idx, rule="C02.10", classes=["MemoryMap", "_RangeMap", "_Namespace"])
 
 
 def handover(rep, idx):
